@@ -702,3 +702,54 @@ func runC02Embedded(c *CaseCtx, r *rand.Rand) (res CaseResult) {
 	}
 	return res
 }
+
+// pollute performs one unrelated operation that FAILS, on functions of its
+// own, right before an operation under test. Nothing such an operation
+// leaves behind (pooled builders or call states, package-level caches) may
+// influence the next operation. Its values carry negative ids: should one of
+// them ever reach a monitored body it has no provenance and is reported.
+func pollute(r *rand.Rand) {
+	defer func() { recover() }()
+	type inA struct {
+		am.Struct
+		A T0
+	}
+	type outA struct {
+		am.Struct
+		A T1
+	}
+	switch r.Intn(5) {
+	case 0: // rejected for a nil option that comes after value options
+		f, _ := am.NewFunc(func(in inA) {})
+		f.Call(am.Named("a", T0{ID: -5}), am.Named("b", T1{ID: -5}), am.Typed(T2{ID: -5}, T3{ID: -5}), am.TypedSubtype(T4{ID: -5}, "x"), nil)
+		am.NewFunc(func(in inA) {}, am.Named("c", T0{ID: -5}), nil)
+		f.Redefine(am.Named("alpha", T0{ID: -5}), nil)
+	case 1: // a converter fails while a multi-input converter is being reached
+		errW := errors.New("pollution: converter failure")
+		f, _ := am.NewFunc(func(x T4) {})
+		f.Call(am.Typed(T0{ID: -5}), am.Typed(T2{ID: -5}),
+			am.Converter(func(a T0, b T1) T4 { return T4{ID: -5} }),
+			am.Converter(func(c T2) (T1, error) { return T1{}, errW }))
+	case 2: // Redefine fails while planning a named value: the only route goes through a run-once converter that memoized a failure
+		errS := errors.New("pollution: memoized failure")
+		for _, name := range []string{"a", "b", "c"} {
+			_ = name
+		}
+		once, _ := am.NewFunc(func(in inA) (outA, error) { return outA{}, errS }, am.FuncOnce())
+		tgt, _ := am.NewFunc(func(in outA) {})
+		tgt.Call(am.Named("a", T0{ID: -5}), am.ConverterFunc(once))
+		tgt.Redefine(am.ConverterFunc(once), am.FilterInput(am.FilterType(types[0])))
+	case 3: // unsatisfied: named and typed requirements nobody supplies
+		f, _ := am.NewFunc(func(in struct {
+			am.Struct
+			A T3
+			B T4 `argmapper:",typeOnly,subtype=x"`
+		}) {
+		})
+		f.Call(am.Named("b", T0{ID: -5}), am.Typed(T1{ID: -5}))
+		am.Convert(types[5], am.Named("a", T0{ID: -5}))
+	default: // the target itself fails
+		f, _ := am.NewFunc(func(in inA) error { return errors.New("pollution: target failure") })
+		f.Call(am.Named("a", T0{ID: -5}))
+	}
+}
